@@ -497,6 +497,13 @@ fn run_inner(sc: &J) -> Result<Option<String>, String> {
                 Q2 { ww: 42, xx: "hi".into(), yy: "there".into(), zz: 300 },
                 rec(vec![("zz", Value::Long(300)), ("yy", Value::String("there".into())), ("xx", Value::String("hi".into())), ("ww", Value::Long(42))]));
             item!("[\"null\",\"double\"]", Some(2.25f64), Value::Union(1, Box::new(Value::Double(2.25))));
+            // chars (serde `serialize_char`): one to four UTF-8 bytes behind a length
+            item!("\"string\"", 'B', Value::String("B".into()));
+            item!("\"string\"", 'é', Value::String("é".into()));
+            item!("\"string\"", '😀', Value::String("😀".into()));
+            #[derive(serde::Serialize)] struct WithChar { id: i64, letter: char, note: String }
+            item!("{\"type\":\"record\",\"name\":\"wc\",\"fields\":[{\"name\":\"id\",\"type\":\"long\"},{\"name\":\"letter\",\"type\":\"string\"},{\"name\":\"note\",\"type\":\"string\"}]}",
+                WithChar { id: 300, letter: '€', note: "good".into() }, rec(vec![("id", Value::Long(300)), ("letter", Value::String("€".into())), ("note", Value::String("good".into()))]));
             // a map value (serde `serialize_map`, as produced by `#[serde(flatten)]` and by HashMap/BTreeMap) under a RECORD schema
             item!("{\"type\":\"record\",\"name\":\"m\",\"fields\":[{\"name\":\"a\",\"type\":\"int\"},{\"name\":\"b\",\"type\":\"int\"},{\"name\":\"c\",\"type\":\"int\"}]}",
                 [("a", 1i32), ("b", 300), ("c", -70000)].into_iter().map(|(k, v)| (k.to_string(), v)).collect::<BTreeMap<String, i32>>(),
@@ -622,6 +629,28 @@ fn run_inner(sc: &J) -> Result<Option<String>, String> {
                     if let Some(m) = validate_write_check(&schema, &rec)? { return Ok(Some(format!("record form order {perm:?} key {date_key}: {m}"))); }
                     if let Some(m) = validate_write_check(&uschema, &Value::Union(1, Box::new(rec.clone())))? { return Ok(Some(format!("record-in-union form order {perm:?} key {date_key}: {m}"))); }
                 }
+            }
+            // a bare record against a union of records whose EARLIER branch encodes some fields before it fails
+            let two = "[{\"type\":\"record\",\"name\":\"Named\",\"fields\":[{\"name\":\"id\",\"type\":\"long\"},{\"name\":\"name\",\"type\":\"string\"}]},{\"type\":\"record\",\"name\":\"Priced\",\"fields\":[{\"name\":\"id\",\"type\":\"long\"},{\"name\":\"price\",\"type\":\"long\"}]},{\"type\":\"record\",\"name\":\"Tagged\",\"fields\":[{\"name\":\"id\",\"type\":\"long\"},{\"name\":\"price\",\"type\":\"long\"},{\"name\":\"tag\",\"type\":\"string\"}]}]";
+            let two_schema = Schema::parse_str(two).map_err(|e| e.to_string())?;
+            for rec in [Value::Record(vec![("id".into(), Value::Long(7)), ("price".into(), Value::Long(3))]),
+                        Value::Record(vec![("id".into(), Value::Long(7)), ("price".into(), Value::Long(3)), ("tag".into(), Value::String("t".into()))]),
+                        Value::Record(vec![("id".into(), Value::Long(7)), ("name".into(), Value::String("n".into()))])] {
+                // (which branch a bare record goes to is the resolver's choice — the first branch it fits, extra value fields dropped;
+                // validate_write_check compares the written bytes with that canonical form and demands exactly one datum)
+                if let Some(m) = validate_write_check(&two_schema, &rec)? { return Ok(Some(format!("record in a union of records: {m}"))); }
+            }
+            // nullable unions with the null branch first and last, and every way of writing "no value" / "a value"
+            for us in ["[\"null\",\"string\"]", "[\"string\",\"null\"]", "[\"long\",\"null\",\"string\"]"] {
+                let uschema2 = Schema::parse_str(us).map_err(|e| e.to_string())?;
+                let n = if let Schema::Union(u) = &uschema2 { u.variants().len() as u32 } else { 0 };
+                for i in 0..n { for payload in [Value::Null, Value::String("s".into()), Value::Long(4)] {
+                    let v = Value::Union(i, Box::new(payload));
+                    if let Some(m) = validate_write_check(&uschema2, &v)? { return Ok(Some(format!("union {us}, value {v:?}: {m}"))); }
+                    let wrapped = Schema::parse_str(&format!("{{\"type\":\"record\",\"name\":\"w\",\"fields\":[{{\"name\":\"u\",\"type\":{us}}},{{\"name\":\"after\",\"type\":\"long\"}}]}}")).map_err(|e| e.to_string())?;
+                    let rv = Value::Record(vec![("u".into(), v.clone()), ("after".into(), Value::Long(9))]);
+                    if let Some(m) = validate_write_check(&wrapped, &rv)? { return Ok(Some(format!("record field of union {us}, value {v:?}: {m}"))); }
+                } }
             }
             let forms: Vec<(&str, Value)> = vec![
                 ("\"long\"", Value::Int(-70000)), ("\"double\"", Value::Int(7)), ("\"double\"", Value::Long(1 << 40)), ("\"double\"", Value::Float(1.5)),
